@@ -77,3 +77,17 @@ def support_threshold(value):
         yield
     finally:
         config.EFFECTIVE_SUPPORT_THRESHOLD = old
+
+
+@contextlib.contextmanager
+def config_value(name, value):
+    """temporarily change an attribute of pydrobert.speech.config (None leaves it alone)"""
+    from pydrobert.speech import config
+
+    old = getattr(config, name)
+    if value is not None:
+        setattr(config, name, value)
+    try:
+        yield
+    finally:
+        setattr(config, name, old)
